@@ -40,7 +40,7 @@ Theorem C01_delivery : forall cf app, benign app -> zpos (c_ping_timeout cf) = N
   ref_messages open fs = Some (ms, open') ->
   exists c', feedf cf app c (encode_all fs lfs) = (c', SOk) /\ idle c' open' /\ data_head open' /\
              msg_events (k_tr c') = rev (map ev_of ms) ++ msg_events (k_tr c) /\ k_sock c' = k_sock c /\
-             (passive app -> wfacts cf c c' ms).       (* what is written meanwhile: see C14 *)
+             (wfacts cf c c' ms).       (* what is written meanwhile: see C14 *)
 Proof. exact deliver_frames. Qed.
 Print Assumptions C01_delivery.
 
@@ -51,7 +51,7 @@ Theorem C01_delivery_any_chunking : forall cf app, benign app -> zpos (c_ping_ti
   ref_messages open fs = Some (ms, open') -> concat ds = encode_all fs lfs ->
   exists c', feed_chunks cf app c ds = (c', SOk) /\ idle c' open' /\ data_head open' /\
              msg_events (k_tr c') = rev (map ev_of ms) ++ msg_events (k_tr c) /\ k_sock c' = k_sock c /\
-             (passive app -> wfacts cf c c' ms).
+             (wfacts cf c c' ms).
 Proof. exact deliver_frames_chunked. Qed.
 Print Assumptions C01_delivery_any_chunking.
 
